@@ -687,6 +687,59 @@ def oracle(prop, script, c_lines):
 # supporting evidence (thorough tier): real threads under ThreadSanitizer
 
 
+# ---------------------------------------------------------------------------
+# re-entrant clear callback (implementation only: the model's callback is a single step)
+
+
+def reent_scripts(rng, count):
+    """scenarios in which the clear callback itself calls cstl_weak_ptr_lock on a weak pointer to the
+    allocation being torn down, under round-robin and random schedules"""
+    scns = [
+        [("1", "", ["reset:0"])],
+        [("1", "", ["reset:0"]), ("0", "1", ["lock:0:0", "use:0", "reset:0", "wreset:0"])],
+        [("1", "", ["reset:0"]), ("1", "", ["reset:0"])],
+        [("1", "1", ["reset:0", "lock:0:0", "reset:0", "wreset:0"]), ("0", "1", ["wreset:0"])],
+        [("1", "", ["reset:0"]), ("0", "1", ["lock:0:0", "reset:0", "wreset:0"]), ("0", "1", ["lock:0:0", "reset:0", "wreset:0"])],
+    ]
+    out = []
+    for scn in scns:
+        n = len(scn)
+        scheds = [[t for _ in range(40) for t in range(n)]]
+        for _ in range(count):
+            p = []
+            while len(p) < 60:
+                p += [rng.randrange(n)] * rng.choice([1, 1, 2, 3, 5])
+            scheds.append(p + [t for _ in range(40) for t in range(n)])
+        for p in scheds:
+            lines = ["thr %s %s %s" % (sh or "-", wk or "-", " ".join(ops)) for sh, wk, ops in scn]
+            out.append(lines + ["cbreent", "start"] + ["sched %d" % t for t in p] + ["end"])
+    return out
+
+
+def reent_judge(prop, script, c_lines):
+    """every thread finishes (fair schedule, bounded work), the memory is cleared and freed exactly
+    once, the bookkeeping block once, the callback's own lock never yields an owner, no sanitizer report"""
+    for i, line in enumerate(c_lines):
+        if line.startswith("STOP"):
+            return "line %d '%s': implementation stopped with '%s'" % (i, script[min(i, len(script) - 1)], line)
+    if len(c_lines) < len(script):
+        return "no output for line %d" % len(c_lines)
+    last = c_lines[len(script) - 1]
+    m = _END.match(last.replace("end cbowner", "end", 1))
+    if not m:
+        return "unparsable end line '%s'" % last
+    if last.startswith("end cbowner"):
+        return "the lock taken inside the clear callback yielded an owner of the memory being cleared"
+    clr, fm, fd, fin = int(m.group(2)), int(m.group(3)), int(m.group(4)), m.group(5)
+    if "0" in fin:
+        return ("thread(s) %s never finish under a fair schedule although every other thread has finished or keeps "
+                "running: a thread waits forever (clear callback re-entering cstl_weak_ptr_lock)"
+                % [k for k, c in enumerate(fin) if c == "0"])
+    if (clr, fm, fd) != (1, 1, 1):
+        return "clear/free(memory)/free(bookkeeping) counts %d/%d/%d, expected 1/1/1" % (clr, fm, fd)
+    return None
+
+
 def tsan_build():
     import vlib
     d = vlib.mktmp("conc_tsan")
